@@ -53,3 +53,7 @@ open Ekit.RB
 #print axioms Ekit.MiniGo.RBHeap.Succ.findSuccessor_spec
 #print axioms Ekit.MiniGo.RBHeap.AddN.addNode_ord
 #print axioms Ekit.MiniGo.RBHeap.Del.deleteNode_ord
+#print axioms Ekit.MiniGo.RBHeap.Fix.fixAfterDelete_keeps_parent
+#print axioms Ekit.MiniGo.RBHeap.fixSpec_holds
+#print axioms Ekit.MiniGo.RBHeap.c02_ptr_step_ordered
+#print axioms Ekit.MiniGo.RBHeap.c02_ptr_history_ordered
